@@ -5,7 +5,8 @@
    scaler.go in Check/CheckC04.v; S = numpy.matmul (Spec/MatMulSpec.v) and the ONNX / ONNX-ML
    formulas (gemm_s, linreg_s, scaler_s in Check/CheckC04.v). *)
 From Coq Require Import List ZArith Bool String.
-From V Require Import Tensor Case OpCheck BroadcastProofs Odometer OdometerProofs MatMul MatMulSpec MatMulProofs CheckC04 GemmProofs.
+From Coq Require Import Reals.
+From V Require Import Tensor Case OpCheck BroadcastProofs Odometer OdometerProofs MatMul MatMulSpec MatMulProofs CheckC04 GemmProofs Ival IvalProofs FexecProofs C04FloatProofs.
 Import ListNotations.
 
 (* MatMul follows numpy.matmul for EVERY rank combination -- vector.vector, vector.matrix,
@@ -66,6 +67,36 @@ Print Assumptions C04_scaler_refines.
 
 Open Scope Z_scope.
 (* the known-finding class is real, and the theorems are not vacuous *)
+(* FLOATING POINT. The float stream (Check/CheckC04F.v) judges every output element against an interval
+   enclosure of the ONNX formula. These enclosures are sound: ANY execution of the formula in which each
+   arithmetic result is within one unit roundoff (plus the absolute allowance) of the exact result computed
+   from the previous rounded values, and each dot product within the bound of `dot_near` (any summation
+   order), lands inside the enclosure -- so such an execution is never flagged, and an output outside the
+   enclosure is not such an execution (the numerically different x*scale - offset*scale is flagged where
+   it cancels). encl, near, dot_near: Proofs/IvalProofs.v, Proofs/FexecProofs.v. *)
+Theorem C04_scaler_enclosure_sound w px po ps x o s d y :
+  encl px x -> encl po o -> encl ps s -> near w 1 (x - o)%R d -> near w 1 (d * s)%R y ->
+  encl (f_mul w (f_sub w px po) ps) y.
+Proof. exact (fexec_scaler_elem w px po ps x o s d y). Qed.
+Theorem C04_scaler_tensor_enclosed w pX X po os ps ss Y :
+  Forall2 (Forall2 encl) pX X -> Forall2 encl po os -> Forall2 encl ps ss ->
+  Forall2 (fun xs ys => exists ds, scaler_exec_row w xs os ss ds ys) X Y ->
+  Forall2 (Forall2 encl) (map (fun xr => scaler_row w xr po ps) pX) Y.
+Proof. exact (fexec_scaler_tensor w pX X po os ps ss Y). Qed.
+Theorem C04_linreg_enclosure_sound w pxs pcs pi xs cs i d y :
+  Forall2 encl pxs xs -> Forall2 encl pcs cs -> encl pi i -> dot_near w xs cs d -> near w 1 (d + i)%R y ->
+  encl (f_add w (f_dot w pxs pcs) pi) y.
+Proof. exact (fexec_linreg_elem w pxs pcs pi xs cs i d y). Qed.
+Theorem C04_matmul_enclosure_sound w pas pbs as_ bs y :
+  Forall2 encl pas as_ -> Forall2 encl pbs bs -> dot_near w as_ bs y -> encl (f_dot w pas pbs) y.
+Proof. exact (fexec_matmul_elem w pas pbs as_ bs y). Qed.
+Theorem C04_gemm_enclosure_sound w pas pbs pal pbe pc as_ bs al be c d p t y :
+  Forall2 encl pas as_ -> Forall2 encl pbs bs -> dot_near w as_ bs d ->
+  encl pal al -> near w 1 (al * d)%R p -> encl pbe be -> encl pc c -> near w 1 (be * c)%R t -> near w 1 (p + t)%R y ->
+  encl (f_add w (f_mul w pal (f_dot w pas pbs)) (f_mul w pbe pc)) y.
+Proof. exact (fexec_gemm_c_elem w pas pbs pal pbe pc as_ bs al be c d p t y). Qed.
+Print Assumptions C04_gemm_enclosure_sound.
+
 Example C04_degenerate_refuted :
   let a := mkT [3;1]%nat [1;2;3] in let b := mkT [1]%nat [5] in
   matmul_degenerate a b = true /\ matmul_model 0 Z.add Z.mul a b = MErr /\
